@@ -21,6 +21,9 @@ end VaxisModel.Model.SimpleList
 namespace VaxisModel.Model.DynList
 
 /-- The repair facts as found in vxfw/list/list.go now. -/
-def genFacts : Facts := { cursorGuard := Gen.ListFacts.dynCursorGuard, insertStops := Gen.ListFacts.dynInsertStops }
+def genFacts : Facts :=
+  { cursorGuard := Gen.ListFacts.dynCursorGuard, insertStops := Gen.ListFacts.dynInsertStops,
+    clampTop := Gen.ListFacts.dynClampTop, gapAbove := Gen.ListFacts.dynGapAbove,
+    revealAbove := Gen.ListFacts.dynRevealAbove }
 
 end VaxisModel.Model.DynList
